@@ -1425,9 +1425,13 @@ class IndexedAdvancedHTMLParser(AdvancedHTMLParser):
             for value in values:
                 elements += TagCollection(_otherAttributeIndexes[attrName].get(value, []))
 
+            if isFromRoot is False:
+                _hasTagInParentLine = self._hasTagInParentLine
+                elements = TagCollection([x for x in elements if _hasTagInParentLine(x, root)])
+
             return elements
 
-        return AdvancedHTMLParser.getElementsWithAttrValues(self, attrName, values, root, useIndex)
+        return AdvancedHTMLParser.getElementsWithAttrValues(self, attrName, values, root)
 
 
     # TODO: Write indexed alternates for XPath?
